@@ -8,6 +8,14 @@ require (
 	github.com/fido-device-onboard/go-fdo/sqlite v0.0.0
 )
 
+require (
+	github.com/ncruces/go-sqlite3 v0.30.5 // indirect
+	github.com/ncruces/julianday v1.0.0 // indirect
+	github.com/tetratelabs/wazero v1.11.0 // indirect
+	golang.org/x/crypto v0.47.0 // indirect
+	golang.org/x/sys v0.40.0 // indirect
+)
+
 replace github.com/fido-device-onboard/go-fdo => /repo
 
 replace github.com/fido-device-onboard/go-fdo/sqlite => /repo/sqlite
